@@ -7,7 +7,7 @@ On success copy it to /verif/seeded/<id>/ with meta.json extended by what was ru
 import json, os, shutil, subprocess, sys, tempfile, xml.etree.ElementTree as ET
 src, sid = sys.argv[1], sys.argv[2]
 skip_suite = "--skip-suite" in sys.argv
-WT = "/var/tmp/confirmwt"
+WT = os.environ.get("CONFIRM_WT", "/var/tmp/confirmwt")
 head = subprocess.run(["git", "-C", "/repo", "rev-parse", "HEAD"], capture_output=True, text=True).stdout.strip()
 if not os.path.isdir(WT):
     subprocess.run(["git", "-C", "/repo", "worktree", "add", "--detach", WT, "HEAD"], check=True, capture_output=True)
